@@ -10,20 +10,26 @@ Check keystore_refines_map :
     (forall k, dec (enc k) = Some k) ->
     forall (debug : bool) (ops : list (op key)),
       let '(m, want) := spec_run key (fun _ => None) ops in
-      (let '(s, got) := fs_run key enc dec rewinds debug (fs_init debug) ops in
+      (let '(s, got) := fs_run key enc dec rewinds dirty_first debug (fs_init debug) ops in
        got = want /\ (forall i, lookup (files s) i = option_map enc (m i)))
       /\ (let '(s, got) := mem_run key enc dec [] ops in
           got = want /\ (forall i, lookup s i = option_map enc (m i))).
 Print Assumptions keystore_refines_map.
 
 (** The system-call skeleton the model transcribes, as regenerated from the source. *)
-Theorem ks_skeleton : rewinds = true
+Theorem ks_skeleton : rewinds = true /\ dirty_first = false
+  /\ ks_fs_vacant_insert_steps = ["cbor::into_writer"; "self.fd.fsync"; "self.dirty=true"]%string
+  /\ ks_fs_vacant_insert_propagates = ["cbor::into_writer(&key,&self.fd)?"; "self.fd.fsync()?"]%string
+  /\ ks_mem_vacant_insert = ["self.entry.insert"; "StoredKey::new"]%string
   /\ ks_fs_occupied_get = ["self.fd.rewind"; "cbor::from_reader"]%string
   /\ ks_fs_occupied_remove = ["fs::unlinkat"; "AtFlags::empty"; "self.get"]%string
   /\ ks_fs_vacant_drop_guard = "!self.dirty"%string
   /\ ks_fs_excl_create_flags = ["CREATE"; "EXCL"; "RDWR"; "CLOEXEC"]%string.
-Proof. pose proof ks_skeleton_pinned. pose proof rewinds_true. tauto. Qed.
-Check ks_skeleton : rewinds = true
+Proof. pose proof ks_skeleton_pinned. pose proof rewinds_true. pose proof dirty_first_false. tauto. Qed.
+Check ks_skeleton : rewinds = true /\ dirty_first = false
+  /\ ks_fs_vacant_insert_steps = ["cbor::into_writer"; "self.fd.fsync"; "self.dirty=true"]%string
+  /\ ks_fs_vacant_insert_propagates = ["cbor::into_writer(&key,&self.fd)?"; "self.fd.fsync()?"]%string
+  /\ ks_mem_vacant_insert = ["self.entry.insert"; "StoredKey::new"]%string
   /\ ks_fs_occupied_get = ["self.fd.rewind"; "cbor::from_reader"]%string
   /\ ks_fs_occupied_remove = ["fs::unlinkat"; "AtFlags::empty"; "self.get"]%string
   /\ ks_fs_vacant_drop_guard = "!self.dirty"%string
@@ -37,8 +43,19 @@ Check keystore_orig_refuted :
   forall (key : Type) (enc : key -> bytes) (dec : bytes -> option key) (k : key),
     (forall k, dec (enc k) = Some k) -> dec [] = None ->
     exists ops,
-      snd (fs_run key enc dec false true (fs_init true) ops) <> snd (spec_run key (fun _ => None) ops)
+      snd (fs_run key enc dec false false true (fs_init true) ops) <> snd (spec_run key (fun _ => None) ops)
       /\ exists ops',
-        snd (fs_run key enc dec false true (fs_init true) ops')
+        snd (fs_run key enc dec false false true (fs_init true) ops')
         = [ObVacant key true; ObOccupied key [KOk key k] (Some (KErr key)); ObGet key (Some None)].
 Print Assumptions keystore_orig_refuted.
+
+(** Marking the entry dirty before the write makes a failed insert leave its file behind. *)
+Theorem keystore_dirty_first_refuted : keystore_dirty_first_refuted_stmt.
+Proof. exact keystore_dirty_first_refuted_proof. Qed.
+Check keystore_dirty_first_refuted :
+  forall (key : Type) (enc : key -> bytes) (dec : bytes -> option key) (p : bytes),
+    exists ops,
+      snd (fs_run key enc dec true true true (fs_init true) ops) <> snd (spec_run key (fun _ => None) ops)
+      /\ snd (fs_run key enc dec true true true (fs_init true) ops)
+         = [ObVacantFailed key; ObOccupied key [] None].
+Print Assumptions keystore_dirty_first_refuted.
